@@ -52,6 +52,27 @@ def release_major_minor(text: str) -> tuple[int, int] | None:
     return int(match.group(1)), int(match.group(2))
 
 
+_PRERELEASE = re.compile(r"^(0|[1-9][0-9]{0,17})\.(0|[1-9][0-9]{0,17})(\.(0|[1-9][0-9]{0,17})){0,2}([-+][0-9A-Za-z.+-]+|(a|b|rc|alpha|beta|dev)[0-9.]*)$")
+
+
+def modifier_major_minor(text: str) -> tuple[int, int] | None:
+    """(major, minor) of a release string that carries a pre-release / build modifier (2.2.0-beta, 2.2.0-rc.1,
+    2.2.0+build, 2.0b1).  Whether such a report is accepted is open; IF it is accepted (stored as the reported
+    version) the rules in force must still be those of its major.minor."""
+    match = _PRERELEASE.match(text)
+    if not match:
+        return None
+    return int(match.group(1)), int(match.group(2))
+
+
+def newest_not_above(mm: tuple[int, int]) -> str:
+    best = "1.4"
+    for name in VERSIONS:
+        if VERSION_TUPLES[name] <= mm:
+            best = name
+    return best
+
+
 def pmap(version_text: str | None) -> str | None:
     """Newest supported protocol whose major.minor does not exceed the reported release.
 
